@@ -7,7 +7,7 @@
 (* printed as <<"MISMATCH", json>> and classified against the open known   *)
 (* findings.  TraceAccepted requires that every line was consumed.         *)
 (***************************************************************************)
-EXTENDS Order, KnownFindings, Json, SequencesExt, FiniteSetsExt, Dpkg, MavenCV, SemVer, Pep440, GemVersion
+EXTENDS Order, KnownFindings, Json, SequencesExt, FiniteSetsExt, Dpkg, MavenCV, SemVer, Pep440, GemVersion, Apk
 
 CONSTANTS TraceFile,     \* path of the NDJSON trace
           Prop,          \* property id being judged, e.g. "C01"
@@ -59,9 +59,9 @@ MatrixC01(ev) ==
 
 (* Reference orders (C08-C14): the observed sign of every in-scope pair is the  *)
 (* sign the reference operator computes on the same two texts.                *)
-RefKey(prop, eco, cs) == CASE prop = "C10" -> DKey(cs) [] prop = "C08" -> SvParse(cs) [] prop = "C09" -> PKey(cs) [] prop = "C13" -> GCanonical(cs) [] prop = "C11" -> RKey(cs) [] prop = "C12" -> MvKey(cs)
-RefScope(prop, eco, cs) == CASE prop = "C10" -> DInScope(cs) [] prop = "C08" -> SvInScope(eco, cs) [] prop = "C09" -> PInScope(cs) [] prop = "C13" -> GInScope(cs) [] prop = "C11" -> RInScope(cs) [] prop = "C12" -> MvInScope(cs)
-RefCmpKey(prop, x, y) == CASE prop = "C10" -> DCmpKey(x, y) [] prop = "C08" -> SvCmpKey(x, y) [] prop = "C09" -> PCmpKey(x, y) [] prop = "C13" -> GCmpKey(x, y) [] prop = "C11" -> RCmpKey(x, y) [] prop = "C12" -> MvCmpKey(x, y)
+RefKey(prop, eco, cs) == CASE prop = "C10" -> DKey(cs) [] prop = "C08" -> SvParse(cs) [] prop = "C09" -> PKey(cs) [] prop = "C13" -> GCanonical(cs) [] prop = "C14" -> ApkKey(cs) [] prop = "C11" -> RKey(cs) [] prop = "C12" -> MvKey(cs)
+RefScope(prop, eco, cs) == CASE prop = "C10" -> DInScope(cs) [] prop = "C08" -> SvInScope(eco, cs) [] prop = "C09" -> PInScope(cs) [] prop = "C13" -> GInScope(cs) [] prop = "C14" -> ApkInScope(cs) [] prop = "C11" -> RInScope(cs) [] prop = "C12" -> MvInScope(cs)
+RefCmpKey(prop, x, y) == CASE prop = "C10" -> DCmpKey(x, y) [] prop = "C08" -> SvCmpKey(x, y) [] prop = "C09" -> PCmpKey(x, y) [] prop = "C13" -> GCmpKey(x, y) [] prop = "C14" -> ApkCmpKey(x, y) [] prop = "C11" -> RCmpKey(x, y) [] prop = "C12" -> MvCmpKey(x, y)
 
 MatrixRef(ev) ==
   LET n   == ev.n
@@ -71,7 +71,7 @@ MatrixRef(ev) ==
       key == TLCEval([i \in I |-> RefKey(Prop, ev.eco, cs[i])])
       W(p) == RefCmpKey(Prop, key[p[1]], key[p[2]])
       \* 2 = the reference leaves the pair unclaimed (only C12 has such pairs)
-      unclaimed == IF Prop = "C12" THEN Cardinality({p \in I \X I : W(p) = 2}) ELSE 0
+      unclaimed == IF Prop \in {"C12", "C14"} THEN Cardinality({p \in I \X I : W(p) = 2}) ELSE 0
       bad == {p \in I \X I : LET w == W(p) IN w # 2 /\ w # M[p[1]][p[2]]}
   IN IF PrintT(<<"INFO", ToJson([judged |-> Cardinality(I) * Cardinality(I) - unclaimed, inscope |-> Cardinality(I)])>>) THEN
      {[prop |-> Prop, eco |-> ev.eco, why |-> "ref", a |-> ev.texts[p[1]], b |-> ev.texts[p[2]],
@@ -81,7 +81,7 @@ MatrixRef(ev) ==
 (* Spec audit: the reference operator against answers of an executable         *)
 (* reference (dpkg, node-semver, packaging, Maven) or a published table.       *)
 (* A disagreement makes the *spec* suspect; it is never a verdict on the code. *)
-AuditCmpKey(prop, x, y) == IF prop = "C12" THEN MvListCmp(x.k7, y.k7, 1) ELSE RefCmpKey(prop, x, y)
+AuditCmpKey(prop, x, y) == IF prop = "C12" THEN MvListCmp(x.k7, y.k7, 1) ELSE IF prop = "C14" THEN ApkCmp(x.s, y.s) ELSE RefCmpKey(prop, x, y)
 AuditRef(ev) ==
   LET cs  == TLCEval([i \in 1..Len(ev.texts) |-> S2C(ev.texts[i])])
       key == TLCEval([i \in 1..Len(ev.texts) |-> RefKey(Prop, ev.eco, cs[i])])
